@@ -48,9 +48,25 @@ class OperatorDict(Mapping):
             mvs = [self.algebra.multivector(name=name, keys=keys, symbolcls=self.codegen_symbolcls)
                    for name, keys in zip(string.ascii_lowercase, keys_in)]
             keys_out, func = do_codegen(self.codegen, *mvs)
-            self.algebra.numspace[func.__name__] = self.algebra.wrapper(func) if self.algebra.wrapper else func
-            self.operator_dict[keys_in] = (keys_out, func)
+            self._store(keys_in, keys_out, func)
         return self.operator_dict[keys_in]
+
+    def _store(self, keys_in, keys_out, func):
+        """
+        Bind :code:`func` in the numspace of the algebra and cache it for :code:`keys_in`.
+        Generated names only encode which keys are present, not their order, and registered functions
+        can carry any name. To make sure a name always refers to the same function, a name that is already
+        taken is made unique first. (:code:`dict.setdefault` claims a name atomically.)
+        """
+        numspace = self.algebra.numspace
+        basename, name, n = func.__name__, func.__name__, 0
+        while numspace.setdefault(name, func) is not func:
+            n += 1
+            name = f'{basename}_{n}'
+        func.__name__ = name
+        if self.algebra.wrapper:
+            numspace[name] = self.algebra.wrapper(func)
+        self.operator_dict[keys_in] = (keys_out, func)
 
     def __contains__(self, keys_in: Tuple[Tuple[int]]):
         return keys_in in self.operator_dict
@@ -132,8 +148,7 @@ class UnaryOperatorDict(OperatorDict):
         if keys_in not in self.operator_dict:
             mv = self.algebra.multivector(name='a', keys=keys_in, symbolcls=self.codegen_symbolcls)
             keys_out, func = do_codegen(self.codegen, mv)
-            self.algebra.numspace[func.__name__] = self.algebra.wrapper(func) if self.algebra.wrapper else func
-            self.operator_dict[keys_in] = (keys_out, func)
+            self._store(keys_in, keys_out, func)
         return self.operator_dict[keys_in]
 
     def __call__(self, mv):
@@ -158,8 +173,7 @@ class Registry(OperatorDict):
             tapes = [TapeRecorder(algebra=self.algebra, expr=name, keys=keys)
                      for name, keys in zip(string.ascii_lowercase, keys_in)]
             keys_out, func = do_compile(self.codegen, *tapes)
-            self.algebra.numspace[func.__name__] = self.algebra.wrapper(func) if self.algebra.wrapper else func
-            self.operator_dict[keys_in] = (keys_out, func)
+            self._store(keys_in, keys_out, func)
         return self.operator_dict[keys_in]
 
     def __call__(self, *mvs):
